@@ -1,10 +1,21 @@
 import KyupyVerif.Proofs.NetlistBF
+import KyupyVerif.Proofs.BenchText
+import KyupyVerif.Proofs.VerilogText
 /-! # C11 — parsed Verilog and bench netlists simulate as the described netlist
 
-Object of the theorems: the hand-written model `KV.Netlist` (Model/Netlist.lean) of `kyupy/verilog.py` and `kyupy/bench.py`
-*after* lark: the callbacks `range`, `sigsel`, `concat`, `declaration`, `instantiation` and the passes of
-`VerilogTransformer.module` (0, 1, ports, 1.5, 2, outputs) over an abstract technology library (`TL`: pin ↦ index,
-direction), and `BenchTransformer`.  All theorems quantify over ALL statement lists / port lists / libraries.
+Objects of the theorems: two hand-written models of `kyupy/verilog.py` and `kyupy/bench.py`.
+
+(1) `KV.Netlist` (Model/Netlist.lean) — the transformers *after* lark: the callbacks `range`, `sigsel`, `concat`, `declaration`,
+`instantiation` and the passes of `VerilogTransformer.module` (0, 1, ports, 1.5, 2, outputs) over an abstract technology
+library (`TL`: pin ↦ index, direction), and `BenchTransformer`.  Theorems quantify over ALL statement lists / port lists / libraries.
+
+(2) `KV.BenchText`, `KV.VerilogText` (Model/BenchText.lean, Model/VerilogText.lean) — the TEXT level: lexer and grammar as lark
+(0.12, LALR, contextual lexer) reads the two `GRAMMAR` strings: ignored text (`#`, `//` + newline, `/* */`, `(* *)`, blanks,
+`\r\n`, the lone `\r` that is an error), the name patterns with Python's Unicode case folding, escaped identifiers, sized
+constants as names, numbers only inside ranges, keywords only where a statement begins (bench: `INPUT = AND(a)` is an error,
+`z = INPUT(INPUT)` is not; Verilog: `wire input;` declares a wire, `module` is no statement keyword), `module` as bare prefix at
+the top level, and the grammar by recursive descent.  Output: the statement list (1) consumes (`List BStmt`; `VModule` = lark's
+tree after the `name` callback, handed on by `toR`).  Theorems quantify over ALL statement lists / module lists and ALL layouts.
 
 * **Theorem** (kernel-checked, this file):
   `range_expand` (`_ascending`, `_descending`, `range_single`, `decl_names_*`, `sigsel_bits`) — `[l:r]` gives `base[l] … base[r]`
@@ -21,11 +32,24 @@ direction), and `BenchTransformer`.  All theorems quantify over ALL statement li
   pass 1.5 `assign_fix_complete`: nothing is dropped while one side is driven;
   `reader_onebit_fallback`, `onebit_bus_index` — the `name[0]` fall-back and its blind spot `[k:k]`, `k ≠ 0` (finding D24);
   `bench_shape`, `bench_lines`, `bench_io_order`;
-  `branchforks_only_forks` — with `branchforks` the netlist differs only by one-input/one-output forks on reader branches.
-* **Correspondence** (harness/c11.py, differential, not proof): model == real `verilog.parse` / `bench.parse` on generated
+  `branchforks_only_forks` — with `branchforks` the netlist differs only by one-input/one-output forks on reader branches;
+  **text level**: `bench_text_roundtrip`, `verilog_text_roundtrip` — `parse (print x) = some x` for every statement list /
+  module list whose names can be written (decidable `validStmt` / `validModule`); `bench_text_layout_irrelevant`,
+  `verilog_text_layout_irrelevant` — the same for EVERY layout of the token stream (any ignorable text in front and behind each
+  token: blanks, line breaks, comments of every kind, attributes; decidable `layoutOK`), corollaries
+  `bench_text_between_statements`, `bench_text_trailing_comment`; `bench_text_to_netlist`, `verilog_text_to_netlist` — the circuit model (1) builds from model
+  (2)'s reading of the printed text is the circuit of the statement list, which puts all theorems of (1) behind the text.
+  NOT a theorem: the converse (every accepted text is a layout of a token stream) and anything about rejected texts.
+* **Correspondence** (harness/c11.py, differential, not proof): (1) == real `verilog.parse` / `bench.parse` on generated
   texts: node list, line list with all pin numbers, `io_nodes`, connectivity table; both raise or both build on inputs outside
   the subset.  Which variant of pass 1.5 / pass 2 (`Cfg.assignFix`, `Cfg.onebitDecl`) the code under test has is probed.
-  The grammar and lexer (lark) are exercised there, not modelled.
+  (2) == lark on the REAL grammar strings, for every generated text (all renderings), fixed lexer/grammar corner-case texts
+  and random small edits of the generated texts (delete / insert / replace / swap / cut / duplicate / truncate / snippets such
+  as `//`, `(*`, `\r`, keywords, non-ASCII letters): both accept or both reject (`lark.UnexpectedInput`), lark's parse tree ==
+  the model's statement list == the generator's statement list, and circuit(1) built from (2)'s OWN reading of the text == the
+  real parsed circuit (or both raise).  What remains trusted at the text level: that lark implements the grammar as the hand
+  parser reads it — no longer unexamined, but checked on these texts only.  Outside the modelled domain (answered `unsup`,
+  counted, not compared): a name with an apostrophe that is not a sized constant (Python's `int()` accepts more spellings).
 * **Oracle** (harness/c11.py): truth table of the parsed + resolved circuit under the real `LogicSim(m=2)` against the
   generator's own evaluation of the netlist it rendered; port order; Verilog vs bench.  This decides violations.
   The step from "right connectivity" to "right Boolean function" (DESIGN `parsed_sem`) is oracle-only. -/
@@ -532,5 +556,143 @@ theorem onebit_bus_index :
 example : (bench exBench).ioB = ["a", "b", "z"] ∧ (bench exBench).err = false ∧
     (bench exBench).lines = [⟨.cell "z" 0, .fork "z", none⟩, ⟨.fork "n", .cell "z" 0, none⟩, ⟨.fork "a", .cell "z" 1, none⟩,
                              ⟨.cell "n" 0, .fork "n", none⟩, ⟨.fork "b", .cell "n" 0, none⟩] := by decide +kernel
+
+/-! ## text level (lexer + grammar): bench
+
+`KV.BenchText.parseBench` (Model/BenchText.lean) reads a text the way lark reads it with the grammar of `bench.py` (contextual
+keywords, `%ignore` expression, Unicode case folding of `NAME`); `printBench` is the canonical printer. -/
+section BenchText
+open KV.BenchText
+
+/-- `bench_text_roundtrip`: for ALL statement lists whose names are `NAME`s (`validStmt`: non-empty, only `[-_a-z0-9]` in any
+case; an assignment target does not spell one of the four keywords), parsing the printed text gives the statement list back -/
+theorem bench_text_roundtrip (stmts : List BStmt) (hv : stmts.all validStmt = true) :
+    parseBench (printBench stmts) = some stmts :=
+  parse_print stmts (by simpa using hv)
+
+/-- layout independence: print the token stream of the statement list with ANY text `g0` in front and ANY gap behind each
+token, as long as every gap is ignorable text (`gapB`: blanks, tabs, form feeds, `\n`, `\r\n`, `#` comments closed by their
+`\n`) and no `NAME` is directly followed by a name character (`layoutOK`) — the parser returns the same statement list -/
+theorem bench_text_layout_irrelevant (stmts : List BStmt) (hv : stmts.all validStmt = true) (g0 : List Char)
+    (l : List (Tok × List Char)) (hl : l.map (·.1) = benchToks stmts) (hg0 : gapB .ws g0 = true) (hlay : layoutOK l = true) :
+    parseBench (String.ofList (g0 ++ renderTG l)) = some stmts := by
+  simp only [parseBench, String.toList_ofList]
+  exact parse_layout stmts (by simpa using hv) g0 l hl hg0 hlay
+
+/-- corollary: anything ignorable (blank lines, comment lines, or nothing at all) in front of the text and between the
+statements does not change the result -/
+theorem bench_text_between_statements (sg : List (BStmt × List Char)) (hv : (sg.map (·.1)).all validStmt = true)
+    (g0 : List Char) (hg0 : gapB .ws g0 = true) (hg : sg.all (fun p => gapB .ws p.2) = true) :
+    parseBench (String.ofList (g0 ++ renderTG (benchTGWith sg))) = some (sg.map (·.1)) :=
+  bench_text_layout_irrelevant (sg.map (·.1)) hv g0 (benchTGWith sg) (benchTGWith_toks sg) hg0
+    (layout_benchWith sg (by simpa using hg))
+
+/-- the only other thing lark ignores: a `#` comment at the very end of the text that is NOT closed by a line break
+(`tailOK`) — behind any layout it does not change the result either -/
+theorem bench_text_trailing_comment (stmts : List BStmt) (hv : stmts.all validStmt = true) (g0 tail : List Char)
+    (l : List (Tok × List Char)) (hl : l.map (·.1) = benchToks stmts) (hg0 : gapB .ws g0 = true) (hlay : layoutOK l = true)
+    (ht : tailOK tail = true) : parseBench (String.ofList (g0 ++ (renderTG l ++ tail))) = some stmts := by
+  simp only [parseBench, String.toList_ofList]
+  exact parse_layout_tail stmts (by simpa using hv) g0 tail l hl hg0 hlay ht
+
+example : tailOK "# last line, no line break".toList = true ∧ tailOK "#a\r".toList = true ∧ tailOK "#a\nINPUT(x)".toList = false := by
+  decide +kernel
+
+/-- the hypotheses are satisfiable; the printed text -/
+example : [BStmt.intf ["a", "b"], .intf ["z"], .gate "z" "NAND" ["n-1", "a"], .gate "n-1" "not" ["b"], .gate "K" "__const1__" []].all
+    validStmt = true := by decide +kernel
+example : printBench [.intf ["a", "b"], .intf ["z"], .gate "z" "NAND" ["n-1", "a"], .gate "n-1" "not" ["b"]] =
+    "INPUT(a, b)\nINPUT(z)\nz = NAND(n-1, a)\nn-1 = not(b)\n" := by decide +kernel
+/-- concrete texts: comments, `\r\n`, no blanks at all, keywords in non-keyword positions -/
+example : parseBench "# c17\r\nINPUT(a,b)  OUTPUT ( z )\n\tz=NAND(n-1 , a)#x\nn-1 = not(b)" =
+    some [.intf ["a", "b"], .intf ["z"], .gate "z" "NAND" ["n-1", "a"], .gate "n-1" "not" ["b"]] := by decide +kernel
+example : parseBench "input()x=INPUT(OUTPUT,input)" = some [.intf [], .gate "x" "INPUT" ["OUTPUT", "input"]] := by decide +kernel
+/-- rejected: a keyword as assignment target, a lone `\r`, a missing comma, a name character outside the class -/
+example : parseBench "INPUT = AND(a)" = none ∧ parseBench "INPUT(a)\rOUTPUT(z)" = none ∧ parseBench "z = AND(a b)" = none ∧
+    parseBench "z = AND(a.b)" = none := by decide +kernel
+/-- a layout with gaps of all kinds -/
+example : gapB .ws "  # comment\r\n\t\x0c\n".toList = true ∧ gapB .ws "# open comment".toList = false ∧ gapB .ws "\r".toList = false := by
+  decide +kernel
+
+/-- text → netlist: the circuit the post-parse model builds from its own reading of the printed text is the circuit of the
+statement list — so `bench_shape`, `bench_lines`, `bench_io_order` above speak about circuits built from TEXT -/
+theorem bench_text_to_netlist (stmts : List BStmt) (hv : stmts.all validStmt = true) :
+    KV.BenchText.circOfText (printBench stmts) = some (bench stmts) := by
+  simp only [KV.BenchText.circOfText, bench_text_roundtrip stmts hv, Option.map_some]
+end BenchText
+
+/-! ## text level (lexer + grammar): structural Verilog
+
+`KV.VerilogText.parseVerilog` (Model/VerilogText.lean) reads a text the way lark reads it with the grammar of `verilog.py`:
+contextual lexer (keywords only where a statement begins, `module` as bare prefix at the top level, numbers only inside
+ranges), the two `%ignore` terminals (`//` needs its newline, `/* */`, `(* *)`, lone `\r` is an error), escaped identifiers,
+sized constants as names, ANSI-less headers, declarations with ranges, named and positional pins, bit/part selects, nested
+concatenations, several modules.  The result `VModule` is lark's tree after the `name` callback. -/
+section VerilogText
+open KV.VerilogText
+
+/-- `verilog_text_roundtrip`: for ALL module lists whose names can be written (`validModule`: every name non-empty and
+without tab, blank, `\r`, `\n` — any such string is the name of an escaped identifier —, every declaration names at least
+one signal, every concatenation has at least one item), parsing the printed text gives the module list back -/
+theorem verilog_text_roundtrip (ms : List VModule) (hv : ms.all validModule = true) :
+    parseVerilog (printVerilog ms) = some ms :=
+  parse_print ms hv
+
+/-- layout independence: print the token stream of the module list with ANY text `g0` in front and ANY gap behind each
+token, as long as the gaps are ignorable text (`gapV`: blanks, tabs, form feeds, `\n`, `\r\n`, closed `/* */` and `(* *)`,
+`//` comments closed by `\n`), a word or number is not directly followed by an identifier character, `(` not by `*`, and the
+gap behind an escaped identifier starts with its terminator (`layoutOK`) — the parser returns the same module list -/
+theorem verilog_text_layout_irrelevant (ms : List VModule) (hv : ms.all validModule = true) (g0 : List Char)
+    (l : List (CT × List Char)) (hl : l.map (·.1) = modulesT ms) (hg0 : gapV .ws g0 = true) (hlay : layoutOK l = true) :
+    parseVerilog (String.ofList (g0 ++ renderL l)) = some ms := by
+  simp only [parseVerilog, String.toList_ofList]
+  exact parse_layout ms hv g0 l hl hg0 hlay
+
+/-- text → netlist: for a module whose statements the post-parse model accepts (`toRs`: no name with an apostrophe other
+than sized constants), the circuit built from the model's own reading of the printed text is `module` of the transformed
+statement list — so `ports_order`, `pin_reaches`, `readers_exact`, `assign_line`, … above speak about circuits built from
+TEXT; an instantiation with a positional pin sets `err` (the real `module()` raises) -/
+theorem verilog_text_to_netlist (cfg : Cfg) (tl : TL) (m : VModule) (rs : List RStmt) (hv : validModule m = true)
+    (hr : toRs m.stmts = some rs) :
+    KV.VerilogText.circOfText cfg tl (printVerilog [m]) =
+      some ((module cfg tl m.ports (rs.map transform)).failIf (m.stmts.any VStmt.hasPos)) := by
+  have := verilog_text_roundtrip [m] (by simp [hv])
+  simp only [KV.VerilogText.circOfText, this, hr]
+
+/-- the hypotheses are satisfiable: a module with a bus, escaped identifiers (one spelling a keyword), a sized constant, a
+nested concatenation, an unconnected and a positional pin, `tri`, `inout` -/
+def exVM : VModule := ⟨"top", ["a", "z.q", "e"],
+  [.decl .input (some (3, some 0)) ["a", "b"], .decl .output none ["z.q"], .decl .inout (some (0, none)) ["e"], .decl .tri none ["t"],
+   .inst "AND2_X1" "u$1" [.named "A1" (some (.sig "a" (some (1, none)))), .named "A2" (some (.sig "4'b0011" none)), .named "ZN" none],
+   .inst "input" "assign" [.pos (.cat [.sig "a" none, .cat [.sig "b" (some (2, some 1))]])],
+   .assign (.cat [.sig "z.q" none, .sig "e" none]) (.sig "a" (some (3, some 2)))]⟩
+
+example : [exVM].all validModule = true := by decide +kernel
+example : printVerilog [exVM] =
+    "module top(a, \\z.q , e);\ninput [3:0] a, b;\noutput \\z.q ;\ninout [0] e;\ntri t;\n" ++
+    "AND2_X1 \\u$1 (.A1(a[1]), .A2(4'b0011), .ZN());\n\\input \\assign ({a, {b[2:1]}});\nassign {\\z.q , e} = a[3:2];\nendmodule\n" := by
+  decide +kernel
+example : parseVerilog (printVerilog [exVM]) = some [exVM] := by decide +kernel
+example : (toRs exVM.stmts).isSome = true ∧ exVM.stmts.any VStmt.hasPos = true := by decide +kernel
+
+/-- concrete texts: comments of the three kinds, `\r\n`, an attribute between `(` tokens, keywords as plain names, `module`
+glued to the name, two modules -/
+example : parseVerilog "// netlist\r\nmodule top (a, z);\n  input a; output z; /* wire w; */ wire input;\n  INV_X1 (* keep *) u1 (.A(a), .ZN(z));\nendmodule\n" =
+    some [⟨"top", ["a", "z"], [.decl .input none ["a"], .decl .output none ["z"], .decl .wire none ["input"],
+      .inst "INV_X1" "u1" [.named "A" (some (.sig "a" none)), .named "ZN" (some (.sig "z" none))]]⟩] := by decide +kernel
+example : parseVerilog "modulem();endmodule module module(module);assign module={1'b0};endmodule" =
+    some [⟨"m", [], []⟩, ⟨"module", ["module"], [.assign (.sig "module" none) (.cat [.sig "1'b0" none])]⟩] := by decide +kernel
+/-- rejected: a `//` comment that is not closed by a newline, a lone `\r`, a number where a name must stand, an empty
+concatenation, a keyword as cell type, a missing `;`, an unclosed escaped identifier -/
+example : parseVerilog "module m(); endmodule // end" = none ∧ parseVerilog "module m();\rendmodule" = none ∧
+    parseVerilog "module m(); assign a = 12; endmodule" = none ∧ parseVerilog "module m(); assign {} = a; endmodule" = none ∧
+    parseVerilog "module m(); input u (.A(a)); endmodule" = none ∧ parseVerilog "module m() endmodule" = none ∧
+    parseVerilog "module m(); wire \\a" = none := by decide +kernel
+/-- sized constants and names with an apostrophe on the way to the post-parse model -/
+example : (toSel (.sig "4'hA" none)).map sigsel = some (.many ["1'b1", "1'b0", "1'b1", "1'b0"]) ∧
+    (toSel (.sig "012'd7" (some (1, none)))).map sigsel = some (.one "012'd7[1]") ∧
+    (toSel (.cat [.sig "x" none, .sig "2'B10" none])).map sigsel = some (.many ["x", "1'b1", "1'b0"]) ∧
+    (toSel (.sig "a'b" none)).isNone = true := by decide +kernel
+end VerilogText
 
 end KV.C11
